@@ -5,6 +5,10 @@
 // The oracle of C10 is a sequence-number model written from the C10 statement and the comments of
 // container/iterable/iterator.go; it never looks inside the map. The oracle of C11 reads the
 // internal list through the overlay accessor (*Map).VerifWalk (see hooks_on.go).
+//
+// reach.go holds the second oracle of C11, which needs no accessor: what the map - and the LRU
+// caches built on it - keep reachable is asked of the garbage collector (weak pointers to the keys
+// and values of removed entries).
 package p_map
 
 import (
